@@ -127,6 +127,7 @@ func (s *sink) ptrID(prefix string, v any) string {
 type leaf struct {
 	P []string `json:"p"`
 	V string   `json:"v"`
+	T string   `json:"t"` // kind of the Go value: s(tring) i(nt) b(ool) f(loat) n(ull) e(mpty container) x(other)
 }
 
 // leaves flattens a value into a list of (path, scalar string) pairs, sorted by path.
@@ -144,7 +145,13 @@ func leaves(v any) []leaf {
 		if k != "" {
 			p = strings.Split(k, "\x00")
 		}
-		out = append(out, leaf{P: p, V: m[k]})
+		v := m[k]
+		t := "s"
+		if len(v) >= 2 && v[1] == '\x01' {
+			t = v[:1]
+			v = v[2:]
+		}
+		out = append(out, leaf{P: p, V: v, T: t})
 	}
 	return out
 }
@@ -156,7 +163,7 @@ func flatten(prefix string, v any, out map[string]string, depth int) {
 		return
 	}
 	if v == nil {
-		out[prefix] = "null"
+		out[prefix] = "n\x01null"
 		return
 	}
 	if depth > 10 {
@@ -167,11 +174,11 @@ func flatten(prefix string, v any, out map[string]string, depth int) {
 	switch rv.Kind() {
 	case reflect.Map:
 		if rv.IsNil() {
-			out[prefix] = "null"
+			out[prefix] = "n\x01null"
 			return
 		}
 		if rv.Len() == 0 {
-			out[prefix] = "{}"
+			out[prefix] = "e\x01{}"
 			return
 		}
 		for _, k := range rv.MapKeys() {
@@ -184,11 +191,11 @@ func flatten(prefix string, v any, out map[string]string, depth int) {
 		}
 	case reflect.Slice, reflect.Array:
 		if rv.Kind() == reflect.Slice && rv.IsNil() {
-			out[prefix] = "null"
+			out[prefix] = "n\x01null"
 			return
 		}
 		if rv.Len() == 0 {
-			out[prefix] = "[]"
+			out[prefix] = "e\x01[]"
 			return
 		}
 		for i := 0; i < rv.Len(); i++ {
@@ -200,22 +207,22 @@ func flatten(prefix string, v any, out map[string]string, depth int) {
 		}
 	case reflect.Ptr, reflect.Interface:
 		if rv.IsNil() {
-			out[prefix] = "null"
+			out[prefix] = "n\x01null"
 			return
 		}
 		flatten(prefix, rv.Elem().Interface(), out, depth+1)
 	case reflect.Struct:
-		out[prefix] = "<struct:" + rv.Type().String() + ">"
+		out[prefix] = "x\x01<struct:" + rv.Type().String() + ">"
 	case reflect.String:
 		out[prefix] = rv.String()
 	case reflect.Bool:
-		out[prefix] = strconv.FormatBool(rv.Bool())
+		out[prefix] = "b\x01" + strconv.FormatBool(rv.Bool())
 	case reflect.Int, reflect.Int8, reflect.Int16, reflect.Int32, reflect.Int64:
-		out[prefix] = strconv.FormatInt(rv.Int(), 10)
+		out[prefix] = "i\x01" + strconv.FormatInt(rv.Int(), 10)
 	case reflect.Uint, reflect.Uint8, reflect.Uint16, reflect.Uint32, reflect.Uint64:
-		out[prefix] = strconv.FormatUint(rv.Uint(), 10)
+		out[prefix] = "i\x01" + strconv.FormatUint(rv.Uint(), 10)
 	case reflect.Float32, reflect.Float64:
-		out[prefix] = strconv.FormatFloat(rv.Float(), 'g', -1, 64)
+		out[prefix] = "f\x01" + strconv.FormatFloat(rv.Float(), 'g', -1, 64)
 	default:
 		out[prefix] = "<" + rv.Kind().String() + ">"
 	}
